@@ -10,13 +10,54 @@ CONFIGS_QUICK = ["K1", "K2"]
 CONFIGS_THOROUGH = ["K1", "K2"]
 TECHNIQUE = "static analysis: provenance of struct fields to wire-key literals (MIR), literal<->variant tables, who-may-call"
 
-EXTRACTORS = {
-    "mpd_client::responses::value": "required",
-    "mpd_client::responses::optional_value": "optional",
-    "mpd_client::responses::song_identifier": "optional",
-    "mpd_protocol::response::frame::Frame::get": "optional",
-    "mpd_protocol::response::frame::Frame::take_binary": "optional",
-}
+FRAME_GET = "mpd_protocol::response::frame::Frame::get"
+FRAME_TAKE_BINARY = "mpd_protocol::response::frame::Frame::take_binary"
+EXTRACTORS = {FRAME_GET: "optional", FRAME_TAKE_BINARY: "optional"}
+
+
+def find_extractors(prog):
+    """Helper functions that look a field up by a key they are given: found by what they do, not by name.
+    A workspace fn is an extractor if it calls Frame::get (or another extractor) with a key that derives
+    from one of its own parameters; it is `required` if it can build a 'missing field' error."""
+    ex = {FRAME_GET: "optional", FRAME_TAKE_BINARY: "optional"}
+    changed = True
+    rounds = 0
+    while changed and rounds < 4:
+        changed = False
+        rounds += 1
+        for b in prog.bodies.values():
+            if b.crate != "mpd_client" or b.kind not in ("Fn", "AssocFn") or b.raw.get("derived"):
+                continue
+            n = norm(b.name)
+            if n in ex:
+                continue
+            fl = None
+            hit = False
+            missing = False
+            for fb in [x for x in prog.bodies.values() if x.root == b.root]:
+                for bb, t in fb.calls():
+                    ns = callee_names(t)
+                    if any(x.endswith("TypedResponseError::missing") for x in ns):
+                        missing = True
+                    for a in t["args"] + [t["func"]]:
+                        c = op_const(a)
+                        if c is not None and "fn" in c and norm(c["fn"]["name"]).endswith("TypedResponseError::missing"):
+                            missing = True
+                    if fb.id == b.id and any(x in ex for x in ns) and len(t["args"]) >= 2:
+                        fl = fl or Flow(b)
+                        for a in t["args"][1:]:
+                            l = op_local(a)
+                            if l is None:
+                                continue
+                            leaves, _ = fl.sources([l], through_call=identity_through, follow_mut=False)
+                            if any(x[0] == "param" for x in leaves) and not any(x[0] == "const" for x in leaves):
+                                hit = True
+            if hit:
+                ex[n] = "required" if missing else "optional"
+                changed = True
+    return ex
+
+
 DEFAULTING = {"core::option::Option::unwrap_or", "core::option::Option::unwrap_or_default",
               "core::option::Option::unwrap_or_else"}
 
@@ -90,10 +131,14 @@ def slice_calls(body, fl, locals_):
 def fields_rule(rep, prog, cfg):
     rule = "C16.fields"
     for adt, fn in BUILDERS.items():
-        bs = body_by_name(prog, fn)
         short = adt.rsplit("::", 1)[-1]
+        # the function that constructs the struct (found by the construction, not by its name)
+        bs = [b for b in prog.bodies.values() if b.crate == "mpd_client" and b.kind in ("Fn", "AssocFn") and not b.raw.get("derived")
+              and any(s["k"] == "assign" and s["rv"]["k"] == "agg" and s["rv"]["agg"] == "adt" and norm(s["rv"]["adt_name"]) == adt for _, _, s in b.stmts())]
+        # ... from fields looked up by key (a second constructor that folds a list, like the grouped count, is C16.pairs)
+        bs = [b for b in bs if any(any(n in EXTRACTORS for n in callee_names(t)) for _, t in b.calls())]
         if len(bs) != 1:
-            rep.fail(rule + ".anchor", "%s/%s" % (cfg, short), fn, "constructor %s not found" % fn)
+            rep.fail(rule + ".anchor", "%s/%s" % (cfg, short), adt, "expected exactly one function constructing %s from looked-up fields, found %d" % (adt, len(bs)))
             continue
         b = bs[0]
         aggs = []
@@ -167,7 +212,7 @@ def fields_rule(rep, prog, cfg):
             calls = slice_calls(b, fl, [0])
             keys = set()
             for names, lits, bb in calls:
-                if "mpd_client::responses::value" in names:
+                if any(EXTRACTORS.get(n) == "required" for n in names):
                     keys.update(lits)
             short = st.rsplit("::", 1)[-1]
             rep.check(keys == {SINGLE_FIELD_COMMANDS[st]}, rule, "%s/%s response<-%s" % (cfg, short, "+".join(sorted(keys)) or "-"),
@@ -346,6 +391,11 @@ def run(rep, progs, tier):
     rep.rule("C16.no-trunc-cast", "no truncating float->integer cast of a parsed number on the conversion path (zero instances expected)")
     rep.trusted = ["rustc MIR construction", "mpdfacts exporter", "MPD protocol reference tables", "str::parse"]
     for cfg, prog in progs.items():
+        global EXTRACTORS
+        EXTRACTORS = find_extractors(prog)
+        rep.sample({"extractors_found_" + cfg: {k.rsplit("::", 1)[-1]: v for k, v in EXTRACTORS.items()}})
+        rep.check(len(EXTRACTORS) >= 4, "C16.fields.floor", cfg + "/field extractors found", "responses/mod.rs",
+                  "fewer than 4 field extractors found structurally (%s)" % sorted(EXTRACTORS))
         fields_rule(rep, prog, cfg)
         enums_rule(rep, prog, cfg)
         pairs_rule(rep, prog, cfg)
